@@ -125,6 +125,15 @@ def main():
     # ---- history: execute the ops in order
     results = []
     neutralise = set(job.get("neutralise", []))
+    import signal
+
+    class OpTimeout(BaseException):
+        pass
+
+    def on_alarm(*a):
+        raise OpTimeout()
+
+    signal.signal(signal.SIGALRM, on_alarm)
     for op in job["ops"]:
         if "arm-asm-literal-counter" in neutralise and \
                 str(op["march"]).startswith("arm"):
@@ -134,7 +143,16 @@ def main():
             asm = api.get_arch(op["march"]).assembler
             if hasattr(asm, "lit_counter"):
                 asm.lit_counter = 0
-        results.append(run_op(api, layout_mod, write_elf, op))
+        # wall-clock guard only (some back-ends do not terminate on some
+        # inputs); a subject that trips it is excluded from the comparison
+        signal.alarm(int(job.get("op_timeout", 240)))
+        try:
+            results.append(run_op(api, layout_mod, write_elf, op))
+        except OpTimeout:
+            results.append({"id": op["id"], "digests": {"compile": "TIMEOUT"},
+                            "texts": {}})
+        finally:
+            signal.alarm(0)
     print("RESULT " + json.dumps({"results": results, "patched": patched,
                                   "hashseed": os.environ.get(
                                       "PYTHONHASHSEED")}))
